@@ -120,6 +120,39 @@ def render_probe(q):
         if api in ("reduce", "reduceRight"):
             return "var R = %s; EACH(%s, R.%s(CBT(%s, %s))); EACH(%s, R.%s(CBT(%s, %s), undefined));" % (recv, t, api, t, ret, t, api, t, ret)
         return "var R = %s; EACH(%s, R.%s(CBT(%s, %s))); EACH(%s, R.%s(CBT(%s, %s), null)); EACH(%s, R);" % (recv, t, api, t, ret, t, api, t, ret, t)
+    if fam == "iter":
+        loop, mut = q["loop"], q["mut"]
+        isarr = loop in ("forin_arr", "forof_arr", "forEach", "map", "some", "reduce")
+        recv = "[10, 20, 30, 40]" if isarr else ("Object.create({p1: 1, p2: 2})" if loop == "forin_proto" else "({a: 1, b: 2, c: 3, d: 4})")
+        if loop == "forof_str":
+            recv = "'wxyz'"
+        m_obj = {"none": "", "delete_first": "delete R.a;", "delete_middle": "delete R.b; delete R.c;", "delete_last": "delete R.d;",
+                 "delete_all": "delete R.a; delete R.b; delete R.c; delete R.d;", "delete_next": "delete R.b;", "pop": "delete R.d;",
+                 "shift": "delete R.a;", "truncate": "delete R.c; delete R.d;", "splice_tail": "delete R.c; delete R.d;",
+                 "add_key": "R.zz = 9;", "push": "R.yy = 8;"}
+        m_arr = {"none": "", "delete_first": "R.shift();", "delete_middle": "R.splice(1, 2);", "delete_last": "R.pop();", "delete_all": "R.length = 0;",
+                 "delete_next": "R.splice(1, 1);", "pop": "R.pop();", "shift": "R.shift();", "truncate": "R.length = 1;", "splice_tail": "R.splice(2);",
+                 "add_key": "R.zz = 9;", "push": "if (R.length < 8) R.push(50);"}
+        mt = "" if loop == "forof_str" else (m_arr if isarr else m_obj)[mut]
+        if loop == "forin_proto" and mut.startswith("delete"):
+            mt = "delete Object.getPrototypeOf(R).p2; delete R.own;"
+        once = "if (n++ == 0) { %s }" % mt if mt else "n++;"
+        body = {"forin_obj": "for (var k in R) { %s K(T, k, R[k]); }", "forin_proto": "R.own = 5; for (var k in R) { %s K(T, k, R[k]); }",
+                "forin_arr": "for (var k in R) { %s K(T, k, R[k]); }", "forof_arr": "for (var x of R) { %s K(T, x); }",
+                "forof_str": "for (var x of R) { %s K(T, x); }",
+                "forEach": "R.forEach(function (x, i, a) { %s K(T, x, i, a[i]); });", "map": "EACH(T, R.map(function (x, i) { %s K(T, x, i); return x; }));",
+                "some": "K(T, R.some(function (x, i) { %s K(T, x, i); return false; }));",
+                "reduce": "K(T, R.reduce(function (acc, x, i) { %s K(T, acc, x, i); return x; }));"}[loop] % once
+        return "var T = %s; var R = %s; var n = 0; try { %s } catch (e) { K(T, e) } EACH(T, R);" % (t, recv, body)
+    if fam == "text":
+        mk, val = q["mk"], q["val"]
+        lit = js_quote(val)
+        e = {"eval": "eval(%s)" % lit, "ieval": "(1, eval)(%s)" % lit, "Function": "new Function('return ' + %s)()" % lit,
+             "eval_in_fn": "(function () { return eval(%s) })()" % lit, "eval_in_eval": "eval('eval(' + %s + ')')" % js_quote(lit),
+             "JSON.parse": "JSON.parse(JSON.stringify(eval(%s)) || 'null')" % lit, "eval_via_var": "(function () { var e = eval; return e(%s) })()" % lit,
+             "eval_call": "eval.call(null, %s)" % lit}[mk]
+        return ("var T = %s; try { var v = %s; EACH(T, v); K(T, [v][0], {p: v}.p, typeof v, v === undefined, v === null); "
+                "if (v && typeof v === 'object') { for (var k in v) EACH(T, v[k]); K(T, Object.keys(v), Array.isArray(v)) } } catch (e) { K(T, e) }" % (t, e))
     if fam == "rxcb":
         api, pat, subj = q["api"], q["pat"], q["subj"]
         if api == "replace_strpat":
@@ -176,6 +209,10 @@ def render_probe(q):
                 "toJSON_nested": "K(T, JSON.stringify([{toJSON: CBT(T, [1])}, new Date(0)]))", "indent": "K(T, JSON.stringify({a: [1]}, null, 2), JSON.stringify({a: 1}, undefined, '--'), JSON.stringify(undefined), JSON.stringify(function(){}))"}[u]
         return "var T = %s; try { %s } catch (e) { K(T, e) }" % (t, body)
     raise ValueError(fam)
+
+
+def js_quote(text):
+    return "'" + text.replace("\\", "\\\\").replace("'", "\\'") + "'"
 
 
 def is_ident(s):
